@@ -112,7 +112,7 @@ def kill_point(bins, wd, t, scen, seed, i, ref_lines, keep=False):
         got = [l for l in open(log) if not l.startswith("#")] if os.path.exists(log) else []
         for a, b in zip(got, ref_lines):
             if strip_fail(a) != strip_fail(b):
-                info["mismatch"] = True
+                info["mismatch"] = "%s #%d: got '%s' where the reference has '%s'" % (scen, i, strip_fail(a)[:120], strip_fail(b)[:120])
                 break
         for l in open(log):
             if l.startswith("# KILLED before"):
@@ -186,13 +186,14 @@ def main():
     try:
         bins = {"scen": vlib.go_build("./cmd/scen", "scen")[0], "killsup": vlib.go_build("./cmd/killsup", "killsup")[0]}
         # ---- R1 design level
-        for cfg in ["MC_FsProtocol_kill.cfg"] + (["MC_FsProtocol_kill2.cfg", "MC_FsProtocol_kill3.cfg"] if tier == "thorough" else []):
+        cfgs = ["MC_FsProtocol_kill.cfg"] + (["MC_FsProtocol_kill2.cfg", "MC_FsProtocol_kill3.cfg"] if tier == "thorough" else [])
+        for cfg in ([] if replay_path else cfgs):
             r = vlib.run_tlc("FsProtocol", cfg, wd, workers=vlib.NCPU, timeout=1500)
             vlib.tlc_expect_ok(r, cfg)
             rep.add_tlc(cfg, r, "Kill + Restart anywhere, no power failure")
             if r.violated:
                 rep.notes.append("design-level counterexample in FsProtocol.tla (%s): %s (a verdict only if reproduced on the real code)" % (cfg, r.violated))
-        rep.cov["exhaustive"] = True
+        rep.cov["exhaustive"] = not replay_path
         # ---- R2 kill points
         jobs, refs = [], {}
         if replay_path:
@@ -224,7 +225,8 @@ def main():
         mism = sum(1 for x in infos if x["mismatch"])
         rep.cov["divergences"] = mism + sum(1 for x in infos if not x["killed"])
         if mism:
-            rep.notes.append("DIVERGENCE: %d kill runs had a system-call prefix different from the reference sequence" % mism)
+            rep.notes.append("DIVERGENCE: %d kill runs had a system-call prefix different from the reference sequence, e.g. %s" % (
+                mism, next(x["mismatch"] for x in infos if x["mismatch"])))
         if not recs:
             raise vlib.MachineryError("no kill point was executed")
         # ---- R3 judge
